@@ -1,6 +1,5 @@
 \* spec mutant: the mechanism variant "or_catches_all" (see GlomErrors.tla) must violate a law
 CONSTANTS
-  Fix = TRUE
   Mutant = "or_catches_all"
   MinDepth = 0
   MaxDepth = 1
